@@ -78,7 +78,11 @@ def key_fns(item_kind, rng, tagged=False):
             ("path k", lambda t: wrap(t['k']), Auto('k') if not tagged else (lambda t: ('b', t['k']))),
             ("fn v%2", lambda t: wrap(t['v'] % 2), lambda t: wrap(t['v'] % 2)),
             ("skip-x", lambda t: SKIP if t['k'] == 'x' else wrap(t['k']), lambda t: SKIP if t['k'] == 'x' else wrap(t['k'])),
+            # grouping by type: the bucket key is the class `dict` itself (any hashable is a key)
+            ("type", lambda t: wrap(type(t)), (lambda t: wrap(type(t))) if tagged else type),
         ]
+    if item_kind == 'seq' and not tagged and rng.random() < 0.2:
+        return ("type", lambda t: type(t), type)      # (the bucket key is the class `list`)
     return rng.choice(pool)
 
 
